@@ -34,6 +34,8 @@ func main() {
 		genMain(os.Args[2:])
 	case "detlog":
 		detlogMain(os.Args[2:])
+	case "fresh":
+		freshMain()
 	default:
 		die2("unknown command %q", os.Args[1])
 	}
